@@ -126,10 +126,10 @@ def served_spec(how: str, status: int) -> dict:
     return {"status": status, "ctype": ctype, "body_b64": base64.b64encode(body).decode()}
 
 
-def enumerate_universe(universe: str, max_params: int, scratch_dir: Path, parts: int = 10):
+def enumerate_universe(universe: str, max_params: int, scratch_dir: Path, parts: int = 10, max_resp: int = 3):
     def one(part):
         cfg = tlc.write_cfg(scratch_dir / f"ep-{universe}-{part}.cfg", {"Universe": universe, "MaxParams": max_params, "EmitJson": True, "Part": part,
-                                                                       "Parts": parts if universe == "request" else 1}, ["E1", "E3", "E4", "Emit"], props=["Terminates"])
+                                                                       "Parts": parts if universe == "request" else 1, "MaxResp": max_resp}, ["E1", "E3", "E4", "Emit"], props=["Terminates"])
         return tlc.run_tlc("EndpointMC.tla", cfg, workers=1, timeout=1800, heap="3g")
     if universe == "response":
         return [one(0)]
